@@ -74,7 +74,15 @@ def draw_inputs(c, rng, lo=-2, hi=2):
         wsh = tuple(c.get("wshape", [c["wlen"]])) if c["hasw"] else (0,)
         inp["w"] = np.asarray(arr(wsh), dtype=np.float64).reshape(wsh)
     if op == "cp":
-        inp["mask"] = rng.integers(0, 2, size=tuple(f[0] for f in c["fshapes"])).astype(np.float64)
+        # masks are applied ENTRYWISE (multiplication), whatever their values: weights 1/2, counts 2, signs -1, booleans
+        kind = int(rng.integers(0, 4))
+        msh = tuple(f[0] for f in c["fshapes"])
+        if kind == 3:
+            inp["mask"] = rng.integers(0, 2, size=msh).astype(np.float64)
+            inp["maskbool"] = True
+        else:
+            inp["mask"] = rng.integers(-1, 3, size=msh).astype(np.float64)     # numerators
+            inp["mden"] = 2 if kind == 2 else 1
     if op == "tucker":
         inp["core"] = arr(c["coreshape"], int(c["cden"]) if mixed else 1)
     if op == "p2":
@@ -121,6 +129,8 @@ def draw_inputs(c, rng, lo=-2, hi=2):
         inp.setdefault("dens", list(c["dens"])); inp.setdefault("dtypes", list(c["dtypes"])); inp.setdefault("cden", 1); inp.setdefault("imk", 0)
     if c.get("mag", 0):
         inp["mag"] = draw_mag(op, inp, int(c["mag"]), rng)
+    if c.get("pnear", 0):
+        inp["pnear"] = int(c["pnear"])
     if c.get("late"):
         # the valid configuration the wrapper object is built from before its parts are replaced
         b = {"op": op, "fshapes": c["bfshapes"], "hasw": c["hasw"], "wlen": c["bwlen"], "coreshape": c["bcoreshape"],
@@ -200,6 +210,8 @@ def inputs_json(c, inp):
         out["wshape"] = [int(x) for x in np.shape(inp["w"])] if inp["hasw"] else []
     if "mask" in inp:
         out["mask"] = jt(inp["mask"])
+        out["mden"] = int(inp.get("mden", 1))
+        out["maskbool"] = bool(inp.get("maskbool", False))
     if "core" in inp:
         out["core"] = jt(inp["core"])
     if "ps" in inp:
@@ -228,6 +240,8 @@ def inputs_from_json(c, j):
         inp["w"] = as_float(j["w"]).reshape(tuple(j["wshape"])) if j["hasw"] and "wshape" in j else as_float(j["w"])
     if "mask" in j:
         inp["mask"] = as_float(j["mask"]["data"]).reshape(j["mask"]["shape"])
+        inp["mden"] = int(j.get("mden", 1))
+        inp["maskbool"] = bool(j.get("maskbool", False))
     if "core" in j:
         inp["core"] = as_float(j["core"]["data"]).reshape(j["core"]["shape"])
     if "ps" in j:
@@ -235,6 +249,8 @@ def inputs_from_json(c, j):
         inp["pden"] = int(j.get("pden", 1))
     if "tmag" in j:
         inp["tmag"] = dict(j["tmag"])
+    if c.get("pnear", 0):
+        inp["pnear"] = int(c["pnear"])
     if c.get("alldtype", "float64") != "float64":
         inp["alldtype"] = c["alldtype"]
     if "negzero" in j:
@@ -286,7 +302,10 @@ def fresh(op, inp):
     if op in ("tt", "tr", "ttm"):
         return fs
     if op == "p2":
-        return (w, fs, [(p / float(inp.get("pden", 1))).astype(adt or "float64") for p in inp["ps"]])
+        ps = [(p / float(inp.get("pden", 1))).astype(adt or "float64") for p in inp["ps"]]
+        if inp.get("pnear", 0):
+            ps = [p * (1.0 + inp["pnear"] * 2.0 ** -18) for p in ps]      # inside the validator's 1e-5 tolerance
+        return (w, fs, ps)
     raise ValueError(op)
 
 
@@ -337,14 +356,15 @@ def _norm_json(v, unscale_by=1.0):
     v = v * unscale_by
     q3, ok3 = qi(v * v, 1000)
     q0, ok0 = qi(v * v, 1)
-    return {"has": True, "fin0": ok0, "fin3": ok3, "q3": q3, "q0": q0, "iszero": bool(iszero)}
+    q6, ok6 = qi(v * v, 10**6)
+    return {"has": True, "fin0": ok0, "fin3": ok3, "fin6": ok6, "q3": q3, "q0": q0, "q6": q6, "iszero": bool(iszero)}
 
 
-NO_NORM = {"has": False, "fin0": False, "fin3": False, "q3": 0, "q0": 0, "iszero": False}
+NO_NORM = {"has": False, "fin0": False, "fin3": False, "fin6": False, "q3": 0, "q0": 0, "q6": 0, "iszero": False}
 
 
 def blank_run(op):
-    r = {"rejected": False, "raised": False, "convert": False, "accepted": [], "exc": "", "exact": True, "dtype": "", "dense2": EMPTY_T, "dense": EMPTY_T, "unf": [], "vec": EMPTY_T,
+    r = {"rejected": False, "raised": False, "convert": False, "accepted": [], "exc": "", "exact": True, "dtype": "", "xnorms": [], "dense2": EMPTY_T, "dense": EMPTY_T, "unf": [], "vec": EMPTY_T,
          "shape": [], "rank": [], "norm": NO_NORM}
     if op == "cp":
         r["masked"] = EMPTY_T
@@ -406,6 +426,7 @@ def out_scale(inp, skip=-1):
 
 def make_T(inp, exact, scale):
     cplx = inp.get("imk", 0) > 0
+    pdiv = 1.0 + inp.get("pnear", 0) * 2.0 ** -18
 
     def T(a):
         a = np.asarray(a)
@@ -418,6 +439,8 @@ def make_T(inp, exact, scale):
             if np.iscomplexobj(a):
                 exact[0] = exact[0] and bool(np.all(np.imag(a) == 0))
                 a = np.real(a)
+            if pdiv != 1.0:
+                a = a / pdiv          # (s * x) / s is exact for the small integers x and s = 1 +- 2^-18
             j, ex = jt_exact(a * scale if scale != 1 else a)
         exact[0] = exact[0] and ex
         return j
@@ -485,6 +508,29 @@ def run_late_invalid(op, inp):
     return r
 
 
+def run_tucker_options_invalid(inp, skip, tr, modes):
+    """Invalid (core, factors) pair under view options: every conversion offered with these options, on the raw tuple."""
+    import tensorly as tl
+    r = blank_run("tucker")
+    sk = None if skip < 0 else int(skip)
+    calls = [("tucker_to_tensor", lambda t: tl.tucker_to_tensor(t, skip_factor=sk, transpose_factors=tr,
+                                                                 modes=[int(m) for m in modes] if modes else None))]
+    if not modes:
+        calls += [("tucker_to_unfolded", lambda t: tl.tucker_to_unfolded(t, 0, skip_factor=sk, transpose_factors=tr)),
+                  ("tucker_to_vec", lambda t: tl.tucker_to_vec(t, skip_factor=sk, transpose_factors=tr))]
+    accepted = []
+    for name, fn in calls:
+        try:
+            fn(fresh("tucker", inp))
+            accepted.append(name)
+        except Exception:
+            pass
+    r["convert"] = True
+    r["rejected"] = not accepted
+    r["accepted"] = accepted
+    return r
+
+
 def run_views(op, inp, how, shared=False, objfactory=None):
     """how = "tuple": module-level functions on the tuple/list form; "object": the wrapper class and its methods.
     shared = every conversion is called, in sequence, on ONE tuple / ONE object (otherwise on a fresh copy each)."""
@@ -494,6 +540,8 @@ def run_views(op, inp, how, shared=False, objfactory=None):
     scale = out_scale(inp)
     T = make_T(inp, exact, scale)
     nscale = np.ldexp(1.0, -inp["tmag"]["e"]) if "tmag" in inp else 1.0
+    if inp.get("pnear", 0):
+        nscale = 1.0 / (1.0 + inp["pnear"] * 2.0 ** -18)
 
     # 1. validation / construction
     try:
@@ -542,10 +590,23 @@ def run_views(op, inp, how, shared=False, objfactory=None):
         r["vec"] = T(mk().to_vec() if obj else api["to_vec"](mk()))
         if obj:
             r["norm"] = _norm_json(mk().norm(), nscale)
+            # any other public, argument-free, norm-named method the wrapper exposes must agree with the dense norm, too
+            for name in sorted(dir(mk())):
+                if "norm" in name.lower() and not name.startswith("_") and name.lower() not in ("norm", "normalize", "normalise"):
+                    meth = getattr(mk(), name)
+                    if callable(meth):
+                        try:
+                            v = meth()
+                            if np.ndim(v) == 0:
+                                r["xnorms"].append(_norm_json(v, nscale))
+                        except TypeError:
+                            pass
         elif api["norm"] is not None:
             r["norm"] = _norm_json(api["norm"](mk()), nscale)
         if op == "cp":
-            r["masked"] = T(api["to_tensor"](mk(), mask=inp["mask"].copy()))
+            mden = inp.get("mden", 1)
+            mask = inp["mask"].astype(bool) if inp.get("maskbool") else inp["mask"] / mden
+            r["masked"] = T(np.asarray(api["to_tensor"](mk(), mask=mask)) * mden)
         if op == "ttm":
             r["matrix"] = T(mk().to_matrix() if obj else api["to_matrix"](mk()))
         if op == "p2":
